@@ -19,6 +19,16 @@ decided by the GraphQL type alone: a named type is ONE leaf written by its bound
 Proved over the regenerated `(*TypeReference).IsSlice` rule (Gen/TypeRefRules.lean): named_never_slice,
 processType_never_nil_gql, echo_eq_spec, output_eq_spec; the real TypeReference predicates / Elem() chains are
 compared with the model on a GraphQL-wrapper x Go-type grid (-mode typerefs).
+
+Fields whose TYPE is a root object x the two template flavours (added for the miss C17-change4): "root-typed field"
+projects c17t* (go/harness/c17/rootrefs.go, corpus/C17/rootrefs.txt) - Relay payloads pointing back at Query,
+self-referential root fields, root to root, Subscription as a field type, interface / extension / list holders,
+nullable / non-null / list wrappers, renamed roots - every shape generated with
+use_function_syntax_for_execution_context false AND true, in both exec layouts, the other boolean options spread so
+each meets each flavour with both values; the random grammar draws such fields too. Regenerated fact:
+Gen/FuncSyntaxArms.lean (go/extract/funcsyntaxarms.go, text/template/parse) holds both arms of every
+`if $useFunctionSyntaxForExecutionContext` of codegen/*.gotpl; function_arm_is_translation_of_method_arm proves
+that each function arm is its method arm with the receiver removed and `ec` passed second.
 """
 import json
 import os
@@ -71,6 +81,26 @@ def nested_key_shape(a, b):
     return ba == bb and len(la) == len(lb) and len(la) >= 3 and la[:2] == lb[:2] and la[2:] != lb[2:]
 
 
+def root_typed_fields(schema):
+    """-> set of holder classes ('query' | 'mutation' | 'subscription' | 'other') that carry a field whose named
+    type is a root operation type (best effort, on the schema text)."""
+    txt = re.sub(r'"""[\s\S]*?"""|"[^"\n]*"|#[^\n]*', " ", schema)
+    txt = re.sub(r"\([^()]*\)", " ", txt)
+    roots = {"query": "Query", "mutation": "Mutation", "subscription": "Subscription"}
+    m = re.search(r"(?:^|\s)schema\s*(?:@\w+\s*)*\{([^}]*)\}", txt)
+    if m:
+        for op, name in re.findall(r"(query|mutation|subscription)\s*:\s*(\w+)", m.group(1)):
+            roots[op] = name
+    defined = set(re.findall(r"(?:^|\s)type\s+(\w+)", txt))
+    by_name = {v: k for k, v in roots.items() if v in defined}
+    out = set()
+    for holder, body in re.findall(r"(?:^|\s)type\s+(\w+)[^{}]*\{([^}]*)\}", txt):
+        for _, ftype in re.findall(r"(\w+)\s*:\s*([\[\]!\w]+)", body):
+            if re.sub(r"[\[\]!]", "", ftype) in by_name:
+                out.add(by_name.get(holder, "other"))
+    return out
+
+
 def classify(proj_dir, rc, err):
     """-> (class, shape dict, first error line)"""
     yml = read(os.path.join(proj_dir, "gqlgen.yml"))
@@ -95,6 +125,13 @@ def classify(proj_dir, rc, err):
     if re.search(r"name _\w*Resolver not exported by package|undefined: _\w*Resolver|ec\.resolvers\._\w+ undefined", msg):
         shape.update({"class": "resolver-interface-of-leading-underscore-type",
                       "object_type_with_leading_underscore": bool(re.search(r"^(extend )?type _\w+", schema, re.M))})
+        return shape, head
+    rt = root_typed_fields(schema)
+    if rc == 4 and "nil pointer dereference" in msg and "buildField" in err and re.search(r"^omit_root_models: true", yml, re.M):
+        shape.update({"class": "root-typed-field-without-root-model", "omit_root_models": True, "field_of_root_type": bool(rt)})
+        return shape, "panic: nil pointer dereference in codegen.(*builder).buildField (omit_root_models: true, yet a field has a root object as its type: `<Root> was not found`)"
+    if rc in (3, 6) and re.search(r"\(value of type graphql\.Marshaler\) as func\(ctx context\.Context\) graphql\.Marshaler value in return statement", msg):
+        shape.update({"class": "subscription-field-of-root-type", "subscription_root_has_field_of_root_type": "subscription" in rt})
         return shape, head
     shapes_tsv = [l.split("\t") for l in read(os.path.join(proj_dir, "shapes.tsv")).split("\n") if l]
     if shapes_tsv:
@@ -130,7 +167,7 @@ def run(ctx):
         "type-reference model (Model/TypeRef.lean) covers leaf types (scalars / enums with a binding); pointer plumbing (&res, *v, IsTargetNilable) is transparent in the model and checked by the Go compiler in the sweep; null propagation out of [T!] and errors of bound functions are not modelled",
         "execution of bindings projects: resolvers are reflection-made (return a filled value / their argument / a field-wise copy of their input), the bound functions are exact round trips of a canonical text, so a response leaf shows which bound function was called and with which whole value",
     ]
-    ok_extract = ctx.extract("Keywords", "TypeRefRules")
+    ok_extract = ctx.extract("Keywords", "TypeRefRules", "FuncSyntaxArms")
     proved = ok_extract and ctx.prove(props=["GqlgenVerif.Props.C17"])
     if ok_extract and not proved:
         ctx.cov["proof_failure"] = ctx.proof_failure
@@ -256,7 +293,12 @@ def run(ctx):
                                    "replay": desc + "; Model/TypeRef.lean says " + m}, no_failing_input=True)
     ctx.cov["typerefs"] = {"cases": len(trows), "divergences": tref_div, "spec_failures": len(tref_bad), "spec_failure_cases": tref_bad[:40]}
 
+    # ------------------------------------------------------------ sweep: real generation of random + directed projects
+    sweep = run_sweep(ctx, have_model, branch, nontriv)
+    failed_inputs = sweep.pop("failed_inputs")
+
     # ------------------------------------------------------------ proof failure: search for a failing input
+    # (after the sweep, so that a project that fails for the same reason can be attached as the concrete input)
     if ok_extract and not proved:
         found = False
         if have_model:
@@ -270,11 +312,27 @@ def run(ctx):
                                    "replay": "ToGoPrivate(%r) = %r is a Go keyword (model on regenerated tables: %r)" % (kword, impl, unhex(o))})
                     found = True
                     break
+            # the regenerated flavour table: switches whose function-syntax arm is not the translation of the method arm
+            flav = ctx.driver("c17", ["flav"])[0]
+            if flav != "ok":
+                fn_fail = next((f for f in failed_inputs if f["function_syntax"]), None)
+                for item in flav.split(" ## ")[:4]:
+                    loc, want, got = (item.split(" @@ ") + ["", ""])[:3]
+                    rep = {"kind": "proof", "failing": ctx.proof_failure, "template": "codegen/" + loc,
+                           "function_syntax_arm": got, "translation_of_the_method_syntax_arm": want,
+                           "shape": {"stage": "template-flavours", "class": "function-arm-differs-from-method-arm", "template": loc}}
+                    txt = "codegen/%s: under use_function_syntax_for_execution_context: true the template emits `%s`; the method-syntax arm translated to function syntax is `%s` (theorem function_arm_is_translation_of_method_arm over Gen/FuncSyntaxArms.lean)" % (loc, got, want)
+                    if fn_fail:
+                        rep["input"] = fn_fail["input"]
+                        rep["replay"] = txt + "; failing input: project %s (go/genout/c17/%s, schema files + gqlgen.yml in `input`): %s" % (
+                            fn_fail["project"], fn_fail["project"], fn_fail["error"][:300])
+                        ctx.violation(rep)
+                    else:
+                        rep["replay"] = txt
+                        ctx.violation(rep, no_failing_input=True)
+                    found = True
         if not found and not any(not nf for _, nf in ctx.violations):
             ctx.violation({"kind": "proof", "failing": ctx.proof_failure}, no_failing_input=True)
-
-    # ------------------------------------------------------------ sweep: real generation of random + directed projects
-    sweep = run_sweep(ctx, have_model, branch, nontriv)
 
     ctx.cov.update({
         "evaluations": len(rows) + sweep["projects"],
@@ -294,7 +352,8 @@ def run_sweep(ctx, have_model, branch, nontriv):
     shutil.rmtree(root, ignore_errors=True)
     os.makedirs(root)
     rc, so, se = ctx.harness("c17", ["-mode", "schemas", "-out", root, "-n", n, "-seed", ctx.seed, "-tier", ctx.tier,
-                                     "-bindings", "-corpus", os.path.join(vf.VERIF, "corpus", "C17", "bindings.txt")])
+                                     "-bindings", "-corpus", os.path.join(vf.VERIF, "corpus", "C17", "bindings.txt"),
+                                     "-rootrefs", "-rootcorpus", os.path.join(vf.VERIF, "corpus", "C17", "rootrefs.txt")])
     if rc != 0:
         raise RuntimeError("harness schemas failed: " + se[-2000:])
     projects = [l.split("\t")[1] for l in so.split("\n") if l.startswith("project\t")]
@@ -410,10 +469,27 @@ def run_sweep(ctx, have_model, branch, nontriv):
 
     classes = Counter()
     samples = []
+    failed_inputs = []
+    rootref = Counter()
+    rootref_shapes = Counter()
     for p in projects:
         rc, se = results[p]
-        branch["sweep:" + ("directed" if p.startswith("c17d") else "bindings" if p.startswith("c17b") else "autobind-no-models" if p.endswith("ab") else "random")] += 1
+        branch["sweep:" + ("directed" if p.startswith("c17d") else "bindings" if p.startswith("c17b") else "root-typed-fields" if p.startswith("c17t")
+                           else "autobind-no-models" if p.endswith("ab") else "random")] += 1
         nontriv.add("p" + p)
+        yml_p = read(os.path.join(root, p, "gqlgen.yml"))
+        fsyn = bool(re.search(r"^use_function_syntax_for_execution_context: true", yml_p, re.M))
+        rtf = root_typed_fields("".join(read(os.path.join(root, p, f)) for f in sorted(os.listdir(os.path.join(root, p))) if f.endswith(".graphql")))
+        if rtf:
+            rootref["projects_with_a_field_of_root_type"] += 1
+            rootref["function_syntax" if fsyn else "method_syntax"] += 1
+            for h in rtf:
+                rootref["holder:" + h + (":function" if fsyn else ":method")] += 1
+        if p.startswith("c17t"):
+            for l in read(os.path.join(root, p, "rootshapes.tsv")).split("\n"):
+                if l.startswith("shapes\t"):
+                    for sh in l.split("\t")[1].split():
+                        rootref_shapes[(sh, fsyn)] += 1
         if rc == 0 and p not in build_fail:
             classes["ok"] += 1
             continue
@@ -423,6 +499,8 @@ def run_sweep(ctx, have_model, branch, nontriv):
         classes[shape.get("class", "?")] += 1
         d = os.path.join(root, p)
         files = {f: read(os.path.join(d, f)) for f in sorted(os.listdir(d)) if f.endswith(".graphql") or f == "gqlgen.yml"}
+        if p.startswith("c17t"):
+            files["rootshapes.tsv"] = read(os.path.join(d, "rootshapes.tsv"))
         if p.startswith("c17b"):
             files["ext/ext.go"] = "go/harness/c17/bindext.go.txt (hand-written user package: Marshal/Unmarshal function pairs and MarshalGQL types)"
             files["shapes.tsv"] = read(os.path.join(d, "shapes.tsv"))
@@ -431,11 +509,14 @@ def run_sweep(ctx, have_model, branch, nontriv):
                "replay": "write the files of `input` into a directory under /verif/go/genout/, run `.cache/h_c17 -mode gen -dir <dir>` (api.Generate + stubgen from /repo): %s" % head[:300]}
         if len(samples) < 4:
             samples.append({"project": p, "class": shape.get("class"), "error": head[:200]})
-        ctx.violation(rep)
+        if ctx.violation(rep):   # not a known finding
+            failed_inputs.append({"project": p, "function_syntax": fsyn, "input": files, "error": head})
     return {"projects": len(projects), "random": len([p for p in projects if p.startswith("c17r")]),
             "generated_and_typechecked": classes["ok"], "outcome_classes": dict(classes),
             "declared_identifier_comparisons": emit_cmp, "declared_identifiers_compared": emit_idents,
-            "failure_samples": samples, "bindings": binding,
+            "failure_samples": samples, "bindings": binding, "failed_inputs": failed_inputs,
+            "root_typed_fields": dict(rootref, distinct_shapes_method_syntax=len([1 for (sh, f) in rootref_shapes if not f]),
+                                      distinct_shapes_function_syntax=len([1 for (sh, f) in rootref_shapes if f])),
             "note": "sampled support for the first sentence of C17, not proof"}
 
 
